@@ -1,6 +1,7 @@
 package worlds
 
 import (
+	"bytes"
 	"fmt"
 	"sort"
 
@@ -51,8 +52,21 @@ func runC16(r *simkit.Run) {
 	ntr := c.Range(1, 4, "n-triggers")
 	var trigs []*c16Trigger
 	trigByReg := map[string]*c16Trigger{} // blockhash/logindex -> trigger
+	positional := map[*ref.TrigDef]bool{}
 	mkDef := func(i int) (*ref.TrigDef, common.Hash) {
 		topic := common.BytesToHash([]byte{0xe0, byte(i)})
+		if c.Chance(250, "positional-topic-pred") {
+			// several triggers on one event signature S; the same 32-byte value is constrained at
+			// topic 1 by one and at topic 2 by another ("from == X" / "to == X"): equal hashes at
+			// different positions
+			topic = common.BytesToHash([]byte{0xe0, 0xff})
+			x := common.BytesToHash([]byte{0xaa, byte(c.Intn(2, "shared-value"))})
+			d := &ref.TrigDef{Contract: addrUserContract, Preds: []ref.TrigPredicate{{Offset: 0, Op: 5, ByteArg: topic.Bytes()},
+				{Offset: uint64(1 + c.Intn(2, "shared-value-position")), Op: 5, ByteArg: x.Bytes()}}}
+			positional[d] = true
+			r.Probe("definition-with-positional-topic-predicate")
+			return d, topic
+		}
 		d := &ref.TrigDef{Contract: addrUserContract, Preds: []ref.TrigPredicate{{Offset: 0, Op: 5, ByteArg: topic.Bytes()}}}
 		if c.Chance(400, "extra-pred") {
 			// data word 0 >= 5
@@ -88,8 +102,16 @@ func runC16(r *simkit.Run) {
 						// the same registrant reuses a prefix with another definition: a distinct
 						// trigger (the identity covers the definition)
 						o := trigs[c.Intn(len(trigs), "reused-trigger")]
-						t.prefix, t.sender = o.prefix, o.sender
-						r.Probe("prefix-reused-with-other-definition")
+						same := false
+						for _, x := range trigs {
+							if x.prefix == o.prefix && x.sender == o.sender && bytes.Equal(x.defB, t.defB) {
+								same = true // would be the very same identity registered twice
+							}
+						}
+						if !same {
+							t.prefix, t.sender = o.prefix, o.sender
+							r.Probe("prefix-reused-with-other-definition")
+						}
 					}
 					t.expiry = uint64(n + c.Range(0, 8, "expiry-delta"))
 					specs = append(specs, logEventTriggerRegistered(t.eon, t.prefix, t.sender, t.defB, t.expiry))
@@ -103,7 +125,12 @@ func runC16(r *simkit.Run) {
 					continue
 				}
 				val := int64(c.Intn(10, "log-value"))
-				specs = append(specs, simeth.LogSpec{Address: addrUserContract, Topics: []common.Hash{t.topic}, Data: word(bigInt(val))})
+				topics := []common.Hash{t.topic}
+				if positional[t.def] {
+					vals := []common.Hash{common.BytesToHash([]byte{0xaa, 0}), common.BytesToHash([]byte{0xaa, 1}), common.BytesToHash([]byte{0xbb})}
+					topics = append(topics, simkit.Pick(c, vals, "log-topic1"), simkit.Pick(c, vals, "log-topic2"))
+				}
+				specs = append(specs, simeth.LogSpec{Address: addrUserContract, Topics: topics, Data: word(bigInt(val))})
 				if t.regBlk == nil || uint64(n)-t.regBlk.Number <= 3 || uint64(n) >= t.expiry {
 					interesting = true
 				}
@@ -191,6 +218,11 @@ func runC16(r *simkit.Run) {
 			r.InfraFail("syncer: %v", err)
 		}
 		w.gate()
+		if c.Chance(300, "rpc-faults") {
+			// transient node errors (rpc.eth_error on any call of a sync step)
+			w.faults.ethErr = 40
+			r.Probe("batchings-with-rpc-faults")
+		}
 		desc := ""
 		for pi, blocks := range phases {
 			// heads to deliver in this phase
@@ -220,6 +252,15 @@ func runC16(r *simkit.Run) {
 			for _, hd := range heads {
 				chain.SetHead(hd)
 				err, done := w.call(func() error { return syncer.Sync(w.ctx, hd.Header) })
+				// a failed step (injected RPC error) is retried with the same head, as the
+				// keyper does with the next block event; the outcome must not depend on it
+				for try := 0; done && err != nil && w.faults.ethErr > 0 && try < 10; try++ {
+					r.Probe("sync-step-retried-after-rpc-error")
+					if try == 9 {
+						w.faults.ethErr = 0
+					}
+					err, done = w.call(func() error { return syncer.Sync(w.ctx, hd.Header) })
+				}
 				if !done {
 					w.close()
 					r.Fail("sync-hangs", "multievent", "Sync(%d) did not return", hd.Number)
